@@ -27,6 +27,7 @@ for d in sorted(os.listdir(SRC)):
           'confirmed': {'base_commit': BASE, 'applies_and_compiles': True, 'existing_suite_passes_with_change': True, 'suite_tests_ok_lines': c.get('suite_tests_ok'), 'demo_fails_with_change': True, 'demo_passes_without_change': True, 'how': 'tools/confirm_seed.sh in a scratch worktree outside /repo and /verif (removed afterwards)'},
           'agent_notes': notes,
           'detected_by': old.get('detected_by', None),
+          **{k: old[k] for k in ('summary', 'note_on_repaired_tree') if k in old},
         }
         json.dump(meta, open(meta_path,'w'), indent=1)
         print('imported', pid, n)
